@@ -788,6 +788,10 @@ def r_edge(E):
                 probs.append(f"{nm} is not applied to every element of self.direct_ancestors_with_id")
             else:
                 c = next((c for c in _calls(loop) if isinstance(c.func, ast.Attribute) and c.func.attr == nm), None)
+                if c is not None and not any(isinstance(st, ast.Expr) and st.value is c for st in loop.body):
+                    probs.append(f"{nm} is applied to some ancestors only (it is nested under a condition inside the "
+                                 f"loop): when values are re-attached children-first (rollback, reset_values) the edge "
+                                 f"to a not-yet-re-attached ancestor is never recreated")
                 if c is None or norm(c.func.value) != norm(loop.target) or \
                         not any(norm(k.value) == "self" for k in c.keywords) and [norm(a) for a in c.args] != ["self"]:
                     probs.append(f"{nm} is not called on each ancestor with direct_child=self")
